@@ -60,6 +60,8 @@ pub struct FxCase {
     pub lookups: Vec<i32>,
     pub rows: Vec<Row>,
     pub cal_days: Vec<i32>,
+    /// the look-ups go through ONE loader, in order (a run looks rates up row by row)
+    pub seq: bool,
 }
 
 const NOON: &str = "IEXE0101";
@@ -359,7 +361,8 @@ pub fn gen_case(r: &mut Rng) -> FxCase {
     let mut cal_days = vec![lo, hi, today, jan1_jd(y + 1) - 1, jan1_jd(y + 1)];
     cal_days.push(jan1_jd(1900) + r.range(0, 73000) as i32);
 
-    FxCase { json, today, force, rem, srv, lookups, rows, cal_days }
+    let seq = r.chance(40);
+    FxCase { json, today, force, rem, srv, lookups, rows, cal_days, seq }
 }
 
 // ------------------------------------------------------------------------------------- execution
@@ -404,11 +407,12 @@ fn cur_of(s: &Option<String>) -> Option<Currency> {
 
 pub fn run_case(id: &str, c: &FxCase, out: &mut String) {
     out.push_str(&format!(
-        "case {} fx kind={} today={} force={}\n",
+        "case {} fx kind={} today={} force={} seq={}\n",
         id,
         if c.json { "json" } else { "mock" },
         c.today,
-        c.force as u8
+        c.force as u8,
+        c.seq as u8
     ));
     for (y, v) in &c.rem {
         out.push_str(&rem_line(*y, v));
@@ -440,10 +444,14 @@ pub fn run_case(id: &str, c: &FxCase, out: &mut String) {
         out.push_str(&format!("impl cal {} {} {}\n", j, d.year(), jan1_jd(d.year())));
     }
     let urls: Rc<RefCell<Vec<(String, i32)>>> = Rc::new(RefCell::new(Vec::new()));
+    let mut shared = if c.seq { Some(make_loader(c, &urls)) } else { None };
     for d in &c.lookups {
-        let res = catch(|| {
-            let mut loader = make_loader(c, &urls);
-            loader.blocking_get_effective_usd_cad_rate(date_from_jd(*d))
+        let res = catch(|| match shared.as_mut() {
+            Some(loader) => loader.blocking_get_effective_usd_cad_rate(date_from_jd(*d)),
+            None => {
+                let mut loader = make_loader(c, &urls);
+                loader.blocking_get_effective_usd_cad_rate(date_from_jd(*d))
+            }
         });
         match res {
             Ok(Ok(r)) => {
@@ -548,6 +556,7 @@ pub fn parse_case(lines: &[String]) -> Option<FxCase> {
         lookups: vec![],
         rows: vec![],
         cal_days: vec![],
+        seq: kv("seq").map(|v| v == "1").unwrap_or(false),
     };
     for l in &lines[1..] {
         let mut t: Vec<&str> = l.split_whitespace().collect();
